@@ -14,6 +14,7 @@ pub mod c16;
 pub mod c17;
 pub mod c18;
 pub mod degenerate;
+pub mod selftest;
 
 use crate::engine::{Checks, Profile, Values};
 use crate::metric::Metric;
